@@ -151,7 +151,9 @@ static TabMut c08_mutation(const TypeOps& t, const Schema& fam_tab, const Value&
     Override ov; ov.what = Override::EntrySizeDelta;
     if (kind == 1) { if (f.value == 0) { kind = 3; } else { ov.delta = -(long)(1 + tp.below(f.value)); m.expect = -2; m.how = fmt("entry size %llu shrunk by %ld", (unsigned long long)f.value, -ov.delta); } }
     if (kind == 2) { ov.delta = tp.below(4) == 0 ? 60 + (long)tp.below(300) : 1 + (long)tp.below(6);   // SIZE may exceed the value by any amount
-      ov.pad = tp.below(3) != 0; m.expect = ov.pad ? 0 : -1; m.how = fmt("entry size %llu grown by %ld %s padding", (unsigned long long)f.value, ov.delta, ov.pad ? "with" : "without"); }
+      ov.pad = tp.below(3) != 0;
+      if (tp.below(8) == 0) { ov.delta = -(long)f.value - (long)(1 + tp.below(14)); ov.pad = false; }   // declared size 2^64-k: index + size wraps around
+      m.expect = ov.pad ? 0 : -1; m.how = fmt("entry size %llu grown by %ld %s padding", (unsigned long long)f.value, ov.delta, ov.pad ? "with" : "without"); }
     if (kind != 3) { eo.overrides[fi] = ov; m.bytes = ref_encode(*t.schema, v, eo).bytes; return m; }
   }
   if (kind == 3 || kind == 4 || kind == 5) {
